@@ -67,43 +67,45 @@ SPECS = [
               "value goes through the property setter (llc_pax_set_*); a not assigned attribute keeps the bound "
               "value (None = setter not called); `wks` is the value of the comprehension in statement 2"),
     Spec(GROUP, "llc_activate_gb_ok", F, "LogicalLinkController.activate", [("gb", BYTES)],
-         expr="gb and gb.startswith(b'Ffm') and (len(gb) >= 6)", ret=BOOL,
+         expr="gb and gb.startswith(b'Ffm') and (len(gb) >= 6)", whole=True, ret=BOOL,
          note="cut: the test whether the general bytes returned by the MAC are LLCP parameters (truth value); "
               "`gb` is a byte string (None behaves like the empty one)"),
     Spec(GROUP, "llc_activate_pax_bytes", F, "LogicalLinkController.activate", [("gb", BYTES)],
-         expr="b'\\x00@' + bytes(gb[3:])", note="cut: the argument of `pdu.decode`: a PAX header in front of the TLVs"),
+         expr="b'\\x00@' + bytes(gb[3:])", note="cut: the argument of `pdu.decode`: a PAX header in front of the TLVs; deliberately a SUB-expression "
+              "(not whole=True): the enclosing value `pdu.decode(..)` is the module-level decoder dispatch, which is "
+              "not translated, so a change of the call around this argument is not seen by this cut"),
     Spec(GROUP, "llc_activate_dpc", F, "LogicalLinkController.activate", [],
          binds=[("rcvd_pax.dpc", "dpc", INT), ("self.cfg['llcp-sec']", "llcp_sec", BOOL)],
-         expr="rcvd_pax.dpc if self.cfg['llcp-sec'] else 0", note="cut: the value stored as cfg['llcp-dpc']"),
+         expr="rcvd_pax.dpc if self.cfg['llcp-sec'] else 0", whole=True, note="cut: the value stored as cfg['llcp-dpc']"),
     Spec(GROUP, "llc_secure_data_transfer", F, "LogicalLinkController.secure_data_transfer", [],
          binds=[("self.cfg.get('llcp-dpc', 0)", "dpc", INT)], note="property getter; the dictionary read is a parameter"),
     # --- collect(): aggregation budget
     Spec(GROUP, "llc_collect_icv", F, "LogicalLinkController.collect", [],
          binds=[("self.sec", "has_sec", BOOL), ("self.sec.icv_size", "icv_size", INT)],
-         expr="self.sec.icv_size if self.sec else 0", note="cut: `icv_size`; `self.sec` (cipher or None) as a bool"),
+         expr="self.sec.icv_size if self.sec else 0", whole=True, note="cut: `icv_size`; `self.sec` (cipher or None) as a bool"),
     Spec(GROUP, "llc_collect_first_full", F, "LogicalLinkController.collect", [("miu_size", INT)],
          binds=[("len(send_pdu)", "pdu_len", INT), ("send_pdu.header_size", "header_size", INT)],
-         expr="len(send_pdu) - send_pdu.header_size >= miu_size",
+         expr="len(send_pdu) - send_pdu.header_size >= miu_size", whole=True,
          note="cut: the test that sends the first PDU alone because it fills the link MIU"),
 ] + [
     Spec(GROUP, "llc_collect_budget%d" % _k, F, "LogicalLinkController.collect", [],
          binds=[("self.cfg['send-miu']", "send_miu", INT), ("len(agf_pdu)", "agf_len", INT)],
-         expr="self.cfg['send-miu'] - len(agf_pdu) - 3", nth=_k,
+         expr="self.cfg['send-miu'] - len(agf_pdu) - 3", whole=True, nth=_k,
          note="cut: occurrence %d of the aggregation budget `miu_size`" % _k) for _k in range(3)
 ] + [
     # --- ServiceDiscovery.dequeue batching
-    Spec(GROUP, "llc_sd_res_cond", F, "ServiceDiscovery.dequeue", [("miu_size", INT)], expr="miu_size >= 4",
+    Spec(GROUP, "llc_sd_res_cond", F, "ServiceDiscovery.dequeue", [("miu_size", INT)], expr="miu_size >= 4", whole=True,
          note="cut: condition of the `while` that adds service discovery responses"),
     Spec(GROUP, "llc_sd_res_take", F, "ServiceDiscovery.dequeue", [("miu_size", INT)],
          path=[(0, "body"), (0, "body"), (1, "body"), (0, "body")], stmts=[1], result=["miu_size"],
          note="cut: budget after one response was added (second statement of the `try`)"),
     Spec(GROUP, "llc_sd_req_skip", F, "ServiceDiscovery.dequeue", [("miu_size", INT), ("name", BYTES)],
-         expr="3 + len(name) > miu_size", note="cut: a request that does not fit is rotated to the end; `name` is a local"),
+         expr="3 + len(name) > miu_size", whole=True, note="cut: a request that does not fit is rotated to the end; `name` is a local"),
     Spec(GROUP, "llc_sd_req_take", F, "ServiceDiscovery.dequeue", [("miu_size", INT), ("name", BYTES)],
          path=[(0, "body"), (0, "body"), (2, "body"), (1, "orelse")], stmts=[2], result=["miu_size"],
          note="cut: budget after one request was added"),
     Spec(GROUP, "llc_sd_dm_cond", F, "ServiceDiscovery.dequeue", [("miu_size", INT)],
-         binds=[("len(self.dmpdu)", "dm_count", INT)], expr="len(self.dmpdu) > 0 and miu_size > 0",
+         binds=[("len(self.dmpdu)", "dm_count", INT)], expr="len(self.dmpdu) > 0 and miu_size > 0", whole=True,
          note="cut: a pending DM PDU is sent only with a positive budget"),
     # --- socket API of the link controller
     Spec(GROUP, "llc_bind_by_addr", F, "LogicalLinkController._bind_by_addr", [("addr", INT)],
@@ -134,11 +136,11 @@ SPECS = [
          binds=[("socket.addr", "addr", INT), ("self.sap[socket.addr]", "sap_bound", BOOL)], stmts=[1],
          note="cut: statement 1, same test as in poll()"),
     Spec(GROUP, "llc_dispatch_unknown", F, "LogicalLinkController.dispatch", [("addr", OPT(INT))],
-         binds=[("self.sap[addr]", "sap_at", OPT(INT))], expr="not addr or self.sap[addr] is None", ret=BOOL,
+         binds=[("self.sap[addr]", "sap_at", OPT(INT))], expr="not addr or self.sap[addr] is None", whole=True, ret=BOOL,
          note="cut: connect-by-name: the test for 'no such service' (truth value); `addr` is the local "
               "`self.snl.get(rcvd_pdu.sn)`, the table entry a parameter (None or a marker)"),
     Spec(GROUP, "llc_activate_gb", F, "LogicalLinkController.activate", [],
-         binds=[("pdu.encode(send_pax)", "encoded", BYTES)], expr="b'Ffm' + pdu.encode(send_pax)[2:]",
+         binds=[("pdu.encode(send_pax)", "encoded", BYTES)], expr="b'Ffm' + pdu.encode(send_pax)[2:]", whole=True,
          note="cut: the general bytes handed to the MAC: magic number + encoded PAX without its header; the "
               "encoded PDU is a parameter (pdu_* of group Pdu / `Activate.encodeTlvs`)"),
     # --- bind without / by name: the address search `self.sap[lo:hi].index(None)` is a parameter (its ValueError
@@ -324,6 +326,14 @@ MUTATIONS = [
     ("llc_bind_by_name", "occupied well-known address accepted (defect F9 reintroduced)", "elif self.sap[addr] is not None:\n                raise err.Error(errno.EADDRINUSE)", "elif False:\n                raise err.Error(errno.EADDRINUSE)"),
     ("llc_bind_by_name", "a known name may be bound again", "if self.snl.get(name) is not None:", "if False:"),
     ("llc_bind_by_name", "invalid service name accepted", "if not service_name_format.match(name):", "if False:"),
+    ("llc_activate_gb_ok", "acceptance test gains an operand", "if gb and gb.startswith(b'Ffm') and len(gb) >= 6:",
+     "if gb and gb.startswith(b'Ffm') and len(gb) >= 6 or gb == b'':"),
+    ("llc_sd_dm_cond", "DM condition gains an operand", "if len(self.dmpdu) > 0 and miu_size > 0:",
+     "if len(self.dmpdu) > 0 and miu_size > 0 or icv_size:"),
+    ("llc_collect_first_full", "truthiness test changed (`is False`)", "if len(send_pdu) - send_pdu.header_size >= miu_size:",
+     "if (len(send_pdu) - send_pdu.header_size >= miu_size) is False:"),
+    ("llc_dispatch_unknown", "'no such service' test gains an operand", "if not addr or self.sap[addr] is None:",
+     "if not addr or self.sap[addr] is None or addr == 4:"),
     ("llc_bind_pre", "rebinding a bound socket allowed", "if socket.addr is not None:\n            raise err.Error(errno.EINVAL)", "if socket.addr is None:\n            raise err.Error(errno.EINVAL)"),
     ("llc_bind_pre", "bind after terminate allowed", "if self.terminated:", "if False:"),
     ("llc_recvfrom_badf", "EBADF errno of recvfrom", "raise err.Error(errno.EBADF)\n        if isinstance(socket, tco.RawAccessPoint):\n            return (socket.recv(), None)", "raise err.Error(errno.EINVAL)\n        if isinstance(socket, tco.RawAccessPoint):\n            return (socket.recv(), None)"),
